@@ -1,6 +1,7 @@
 package main
 
 import (
+	"time"
 	"context"
 	"fmt"
 	"math/rand"
@@ -40,6 +41,13 @@ type k8sCase struct {
 	Pods []k8sPod
 	// replicas
 	Sts []k8sSts
+	// replicashist: several Replicas() calls on one manager; Dt seconds pass before each
+	Calls []k8sCall
+}
+
+type k8sCall struct {
+	Dt  int64
+	Sts []k8sSts
 }
 
 type k8sObs struct {
@@ -47,6 +55,7 @@ type k8sObs struct {
 	PVCs     []string `json:",omitempty"`
 	Shards   []string `json:",omitempty"`
 	Names    []string `json:",omitempty"`
+	Hist     [][]string `json:",omitempty"`
 }
 
 var quietLog = func() *logrus.Logger {
@@ -120,6 +129,28 @@ func k8sGen(r *rand.Rand, i int, thorough bool) interface{} {
 			c.Pods[r.Intn(n)].Name = fmt.Sprintf("%s-%d", c.Set, n+3)
 		}
 		r.Shuffle(len(c.Pods), func(a, b int) { c.Pods[a], c.Pods[b] = c.Pods[b], c.Pods[a] })
+	case i%10 == 9:
+		c.Kind = "replicashist"
+		n := 1 + r.Intn(3)
+		calls := 2 + r.Intn(4)
+		for k := 0; k < calls; k++ {
+			call := k8sCall{Dt: []int64{0, 1, 30, 119, 120, 121, 600}[r.Intn(7)]}
+			for j := 0; j < n; j++ {
+				rep := int32(1 + r.Intn(4))
+				st := k8sSts{Name: fmt.Sprintf("set%d", j), Replicas: rep, Updated: rep, Ready: rep}
+				switch r.Intn(4) {
+				case 0: // rolling update in progress (ready or not)
+					st.Updated = rep - 1
+					if r.Intn(2) == 0 {
+						st.Ready = rep - 1
+					}
+				case 1, 2: // not ready
+					st.Ready = rep - 1
+				}
+				call.Sts = append(call.Sts, st)
+			}
+			c.Calls = append(c.Calls, call)
+		}
 	default:
 		c.Kind = "replicas"
 		n := 1 + r.Intn(4)
@@ -253,6 +284,50 @@ func k8sRun(in interface{}) (string, interface{}, map[string]int) {
 			obs = append(obs, fmt.Sprintf("%s %s %v", s.ID, u, s.Ready))
 		}
 		return fmt.Sprintf("KShards %s %s %s %s", cStr(c.Set), cZ(int64(c.Port)), cList(pods), cList(items)), k8sObs{Shards: obs}, st
+	case "replicashist":
+		cli := fake.NewSimpleClientset()
+		var cur *appsv1.StatefulSetList
+		cli.PrependReactor("list", "statefulsets", func(action k8stesting.Action) (bool, runtime.Object, error) {
+			return true, cur.DeepCopy(), nil
+		})
+		rm := k.NewReplicasManager(cli, ns, "", 8080, false, quietLog)
+		var callsT, obsT []string
+		var all [][]string
+		for _, call := range c.Calls {
+			cur = &appsv1.StatefulSetList{}
+			var ins []string
+			for _, s := range call.Sts {
+				cur.Items = append(cur.Items, appsv1.StatefulSet{ObjectMeta: metav1.ObjectMeta{Name: s.Name, Namespace: ns},
+					Status: appsv1.StatefulSetStatus{Replicas: s.Replicas, UpdatedReplicas: s.Updated, ReadyReplicas: s.Ready}})
+				ins = append(ins, fmt.Sprintf("{| st_name := %s; st_replicas := %s; st_updated := %s; st_ready := %s |}",
+					cStr(s.Name), cZ(int64(s.Replicas)), cZ(int64(s.Updated)), cZ(int64(s.Ready))))
+				if s.Replicas != s.Updated {
+					st["rolling_sets"]++
+				}
+			}
+			rm.VerifAge(time.Duration(call.Dt) * time.Second)
+			ms, err := rm.Replicas()
+			if err != nil {
+				panic(err)
+			}
+			names := []string{}
+			for _, m := range ms {
+				var seen string
+				cli.PrependReactor("get", "statefulsets", func(action k8stesting.Action) (bool, runtime.Object, error) {
+					seen = action.(k8stesting.GetAction).GetName()
+					return true, nil, fmt.Errorf("probe")
+				})
+				_ = m.ChangeScale(1)
+				cli.ReactionChain = cli.ReactionChain[1:]
+				names = append(names, seen)
+			}
+			all = append(all, names)
+			callsT = append(callsT, fmt.Sprintf("(%s, %s)", cZ(call.Dt), cList(ins)))
+			obsT = append(obsT, cStrList(names))
+			st["hist_calls"]++
+		}
+		st["nontrivial"] = 1
+		return fmt.Sprintf("KReplicasHist %s %s", cList(callsT), cList(obsT)), k8sObs{Hist: all}, st
 	default:
 		var objs []runtime.Object
 		var ins []string
